@@ -302,9 +302,8 @@ func (d *decompressor) readMember() error {
 	}
 	skipped := int(d.cr.offset() - mark)
 	need := d.blockSize - skipped
-	if need == 0 {
-		return io.EOF
-	} else if need < 0 {
+	if need <= 0 {
+		// A member cannot end before its compressed data and trailer.
 		return ErrCorrupt
 	}
 
